@@ -1,5 +1,184 @@
-/- Proofs/C19Cpu.lean — helper lemmas for Props/C19.lean -/
+/- Proofs/C19Cpu.lean — helper lemmas for the cpu_freq / cpu_count / cpu_stats / boot_time part of
+   Props/C19.lean -/
 import PsutilModel.Proofs.C19
 namespace Psutil.C19
 open Spec
+
+/-! ### cpu_freq -/
+
+theorem foldl_add (f : Freq → Rat) (l : List Freq) (acc : Rat) :
+    l.foldl (fun a x => a + f x) acc = acc + (l.map f).sum := by
+  induction l generalizing acc with
+  | nil => simp
+  | cons x xs ih => simp only [List.foldl_cons, List.map_cons, List.sum_cons, ih]; ring
+
+theorem sumBy_eq (f : Freq → Rat) (l : List Freq) : sumBy f l = (l.map f).sum := by
+  unfold sumBy
+  rw [foldl_add]
+  ring
+
+theorem cpuFreqFront_eq (percpu : Bool) (l : List Freq) : cpuFreqFront percpu l = freqFront percpu l := by
+  unfold cpuFreqFront freqFront
+  cases percpu with
+  | true => rfl
+  | false =>
+    simp only [Bool.false_eq_true, if_false]
+    cases l with
+    | nil => rfl
+    | cons a as =>
+      cases as with
+      | nil => simp [mean]
+      | cons b bs => simp [mean, sumBy_eq]
+
+theorem truncRat_of_den_one (q : Rat) (h : q.den = 1) : ((truncRat q : Int) : Rat) = q := by
+  have hq : ((q.num : Int) : Rat) = q := (Rat.den_eq_one_iff q).mp h
+  unfold truncRat
+  split
+  · rw [← hq, Rat.floor_intCast]
+  · have : -q = (((-q.num : Int)) : Rat) := by push_cast; rw [hq]
+    rw [this, Rat.floor_intCast]
+    push_cast
+    rw [hq]
+    ring
+
+theorem readKhz_kernel (c : Cfg) (hg : c.Good) (f : FileState) (k : Int) (h : fileInt f = some (some k)) :
+    readKhz c f = .ok (perMille (k : Rat)) := by
+  unfold readKhz perMille
+  rw [hg.khz, cast1000]
+  unfold fileInt at h
+  cases f with
+  | absent => simp [FileState.readOpt] at h
+  | unreadable => simp [FileState.readOpt] at h
+  | content b =>
+    simp only [FileState.readOpt, Option.map_some, Option.some.injEq] at h
+    simp [FileState.read, h]
+
+theorem offline_eq (online : List (Nat × FileState)) (i : Nat) :
+    decide ((cpuOnlineFile online i).readOpt = some bZeroNl) = offline online i := by
+  unfold cpuOnlineFile offline
+  cases online.lookup i with
+  | none => simp [FileState.readOpt]
+  | some f =>
+    cases f with
+    | absent => simp [FileState.readOpt]
+    | unreadable => simp [FileState.readOpt]
+    | content b => by_cases hb : b = bZeroNl <;> simp [FileState.readOpt, hb]
+
+theorem curr_rel (c : Cfg) (hg : c.Good) (info : Option Rat) (p : Policy) :
+    match curOf p info with
+    | none => policyCurr c info p = none
+    | some none => True
+    | some (some q) => ∃ k : Int, policyCurr c info p = some (.ok k) ∧ (k : Rat) / 1000 = q := by
+  unfold curOf policyCurr
+  rw [hg.khz, cast1000]
+  cases info with
+  | some mhz =>
+    simp only
+    by_cases hd : (mhz * 1000).den = 1
+    · simp only [hd, if_true]
+      refine ⟨_, rfl, ?_⟩
+      rw [truncRat_of_den_one _ hd, mul_div_cancel_right₀ mhz (by norm_num : (1000 : Rat) ≠ 0)]
+    · simp only [hd, if_false]
+  | none =>
+    simp only [fileInt]
+    cases hsc : p.scalingCur.readOpt with
+    | some b =>
+      cases hb : pyInt? b with
+      | none => simp [hb]
+      | some k => simp [hb, ofOpt, perMille]
+    | none =>
+      cases hcc : p.cpuinfoCur.readOpt with
+      | some b =>
+        cases hb : pyInt? b with
+        | none => simp [hb]
+        | some k => simp [hb, ofOpt, perMille]
+      | none => simp
+
+/-- one policy directory: what the declarative row promises is what the loop body computes -/
+theorem policyFreq_refines (c : Cfg) (hg : c.Good) (online : List (Nat × FileState)) (i : Nat)
+    (info : Option Rat) (p : Policy) (fr : Freq)
+    (h : policyRow p info (offline online i) = some fr) : policyFreq c online i info p = .ok fr := by
+  unfold policyRow at h
+  unfold policyFreq
+  have hrel := curr_rel c hg info p
+  cases hc : curOf p info with
+  | none =>
+    rw [hc] at h hrel
+    simp only at h hrel
+    rw [hrel]
+    simp only
+    rw [← offline_eq] at h
+    by_cases ho : (cpuOnlineFile online i).readOpt = some bZeroNl
+    · simp only [ho, decide_true, if_true, Option.some.injEq] at h
+      simp [ho, h]
+    · simp [ho] at h
+  | some q' =>
+    cases q' with
+    | none => rw [hc] at h; simp at h
+    | some q =>
+      rw [hc] at h hrel
+      obtain ⟨k, hk, hkq⟩ := hrel
+      rw [hk]
+      simp only at h ⊢
+      cases hmn : fileInt p.scalingMin with
+      | none => simp [hmn] at h
+      | some mn' => cases mn' with
+        | none => simp [hmn] at h
+        | some mn =>
+          cases hmx : fileInt p.scalingMax with
+          | none => simp [hmn, hmx] at h
+          | some mx' => cases mx' with
+            | none => simp [hmn, hmx] at h
+            | some mx =>
+              simp only [hmn, hmx, Option.some.injEq] at h
+              rw [readKhz_kernel c hg _ mx hmx, readKhz_kernel c hg _ mn hmn]
+              simp only [hg.khz, cast1000, hkq]
+              rw [h]
+
+theorem allSome_cons {α : Type} (x : Option α) (xs : List (Option α)) (l : List α)
+    (h : allSome (x :: xs) = some l) : ∃ a as, x = some a ∧ allSome xs = some as ∧ l = a :: as := by
+  cases x with
+  | none => simp [allSome] at h
+  | some a =>
+    simp only [allSome] at h
+    cases hx : allSome xs with
+    | none => simp [hx] at h
+    | some as => simp [hx] at h; exact ⟨a, as, rfl, rfl, h.symm⟩
+
+theorem policyLoop_refines (c : Cfg) (hg : c.Good) (online : List (Nat × FileState))
+    (infos : Option (List Rat)) :
+    ∀ (ps : List Policy) (i : Nat) (l : List Freq),
+      allSome (((List.range' i ps.length).zip ps).map fun ip =>
+        policyRow ip.2 (infoAt infos ip.1) (offline online ip.1)) = some l →
+      policyLoop c online infos i ps = .ok l := by
+  intro ps
+  induction ps with
+  | nil => intro i l h; simp [allSome] at h; simp [policyLoop, h]
+  | cons p ps ih =>
+    intro i l h
+    simp only [List.length_cons, List.range'_succ, List.zip_cons_cons, List.map_cons] at h
+    obtain ⟨a, as, h1, h2, h3⟩ := allSome_cons _ _ _ h
+    unfold policyLoop
+    rw [policyFreq_refines c hg online i _ p a h1, ih (i + 1) as h2, h3]
+
+/-- the platform list, given what `_cpu_get_cpuinfo_freq()` returned -/
+theorem cpuFreqPlat_refines (c : Cfg) (hg : c.Good) (variant : Bool) (blocks : List CpuBlock) (t : FreqTree)
+    (hci : cpuinfoFreqs t.cpuinfo = .ok (blocks.map blockMhz)) (l : List Freq)
+    (h : freqList variant blocks t = some l) : cpuFreqPlat c variant t = .ok l := by
+  unfold freqList at h
+  unfold cpuFreqPlat
+  rw [hci]
+  cases variant with
+  | false => simp at h; simp [h]
+  | true =>
+    simp only [Bool.not_true, Bool.false_eq_true, if_false, if_true] at h ⊢
+    apply policyLoop_refines c hg
+    rw [List.range_eq_range'] at h
+    by_cases hl : (sortByN (if t.policies.isEmpty = true then t.perCpu else t.policies)).length
+        = (List.map blockMhz blocks).length
+    · simp only [hl, if_true] at h ⊢
+      exact h
+    · simp only [hl, if_false] at h ⊢
+      simpa only [infoAt] using h
+
 end Psutil.C19
